@@ -14,6 +14,8 @@ import random
 TEXT = [['Some text about the function.'], ['', 'More text,', 'on two lines.'], ['Args:', '    x (int): a number', ''],
         [''], ['Returns:', '\tint: a tab-indented line', '']]
 
+SEPARATORS = ['\x0c', '\x0b', '\x1c', '\x1d', '\x1e', '\x85', '\u2028', '\u2029']
+
 
 def code_block(ids, indent, want, raise_at=None, label=None, rnd=None):
     """(lines, labels) of one doctest block; ids: list of unique statement numbers; labels: 'text' | 'src' | 'want'."""
@@ -251,7 +253,35 @@ def run(eng, tier, seed):
                 break
         if cex is not None:
             break
-    return {'bounded': [{'name': 'C08.line-numbers-point-at-their-text',
+    # ---- characters that str.splitlines() treats as line boundaries but that are NOT line breaks of a source file: written as an
+    # escape in a (non-raw) docstring (\\f, \\v, \\x1c..\\x1e, \\x85, \\u2028, \\u2029) they sit INSIDE one file line
+    n_sep = 0
+    cex_sep = None
+    count_sep = 0
+    for style, lines, raise_at, labels in docstrings(tier, seed + 1):
+        count_sep += 1
+        if count_sep > (60 if tier == 'quick' else 600):
+            count_sep -= 1
+            break
+        sep = SEPARATORS[count_sep % len(SEPARATORS)]
+        lines2 = ['Intro text with the character %s written as an escape; more text.' % sep] + list(lines)
+        for L in (1, 17):
+            try:
+                k, problem = check_docstring(core, style, lines2, raise_at, L)
+            except Exception as ex:      # noqa
+                k, problem = 0, 'harness: %r' % (ex,)
+            n_sep += k
+            if problem is not None:
+                cex_sep = {'style': style, 'docstring_lines': lines2, 'lineno': L, 'separator': repr(sep), 'problem': problem}
+                break
+        if cex_sep is not None:
+            break
+    return {'bounded': [{'name': 'C08.line-numbers-with-separator-characters-in-the-text',
+                         'bound': '%d random docstrings (as above) whose first line holds one of %d characters that str.splitlines() breaks at '
+                                  'but a source file does not (form feed, vertical tab, FS/GS/RS, NEL, U+2028, U+2029) x 2 start lines'
+                                  % (count_sep, len(SEPARATORS)),
+                         'evaluations': n_sep, 'counterexample': cex_sep},
+                        {'name': 'C08.line-numbers-point-at-their-text',
                          'bound': '%d random docstrings (freeform and google layout, 1..4 code blocks, text between them, skip labels, '
                                   'indentation 0/4) x 2 docstring start lines' % count,
                          'evaluations': n, 'counterexample': cex},
